@@ -16,3 +16,4 @@ def check(ctx, rep):
     runrules.eager(ctx, rep, "R12.1", "R12.2", "R12.3", "R12.4")
     common.relation_builder(ctx, rep, "R12.3")
     common.slot_adjacency(ctx, rep, "R12.5")
+    common.wrap_exits(ctx, rep, "R12.6", "a window slot stays taken although no job is running in it")
